@@ -17,6 +17,11 @@ fn main() {
     let verif_dir = std::env::var("VERIF_DIR").unwrap_or_else(|_| "/verif".into());
     let mut evidence: Option<String> = None;
     let mut nshards = None;
+    let mut worker: Option<u64> = None;
+    let mut batches: u64 = 1;
+    let mut only_batch: Option<u64> = None;
+    let mut careful = false;
+    let mut single: Option<String> = None;
     let mut i = 2;
     while i < args.len() {
         match args[i].as_str() {
@@ -38,6 +43,23 @@ fn main() {
             }
             "--evidence" => {
                 evidence = Some(args[i + 1].clone());
+                i += 1;
+            }
+            "--worker" => {
+                worker = Some(args[i + 1].parse().expect("worker"));
+                i += 1;
+            }
+            "--batches" => {
+                batches = args[i + 1].parse().expect("batches");
+                i += 1;
+            }
+            "--only-batch" => {
+                only_batch = Some(args[i + 1].parse().expect("only-batch"));
+                i += 1;
+            }
+            "--careful" => careful = true,
+            "--single" => {
+                single = Some(args[i + 1].clone());
                 i += 1;
             }
             "--shards" => {
@@ -69,6 +91,14 @@ fn main() {
         std::process::exit(if bad > 0 { 2 } else { 0 });
     }
     vharness::engine::install_quiet_panic_hook();
+    if id == "C15" {
+        if let Some(w) = worker {
+            std::process::exit(vharness::props::c15::worker_main(seed, w, batches, only_batch, careful));
+        }
+        if let Some(s) = single {
+            std::process::exit(vharness::props::c15::single_main(&s));
+        }
+    }
     let props = vharness::props::all();
     let Some(p) = props.iter().find(|p| p.id() == id) else {
         eprintln!("unknown property {id}");
